@@ -76,6 +76,7 @@ pub struct ReaderRig {
   pub(crate) _spdp_liveness_receiver: mio_channel::Receiver<GuidPrefix>,
   pub(crate) participant_status_receiver: StatusChannelReceiver<DomainParticipantStatusEvent>,
   pub own_prefix: [u8; 12],
+  pub(crate) nk_keepalive: Vec<Box<dyn std::any::Any>>,
 }
 
 pub fn guid_from_bytes(b: [u8; 16]) -> GUID {
@@ -215,7 +216,111 @@ impl ReaderRig {
       _spdp_liveness_receiver: spdp_liveness_receiver,
       participant_status_receiver,
       own_prefix: p,
+      nk_keepalive: Vec::new(),
     }
+  }
+
+  /// Adds a reader on the un-keyed topic (entity id [0, 0, 0x40 + n, READER_NO_KEY]) wired like the keyed
+  /// slots, and returns its `no_key::DataReader` together with the entity id. Match writers with
+  /// `match_writer_to(entity id, ..)`.
+  pub fn add_no_key_reader(
+    &mut self,
+    reliable: bool,
+  ) -> (crate::dds::no_key::DataReader<VSample>, [u8; 4]) {
+    use crate::dds::{
+      adapters::no_key::DeserializerAdapter as _, no_key::wrappers::DAWrapper,
+      no_key::wrappers::NoKeyWrapper,
+    };
+    let sh = shared();
+    let qos = make_qos(&ReaderCfg {
+      reliable,
+      history_depth: None,
+      max_samples: Some(100_000),
+    });
+    let n = self.nk_keepalive.len() as u8;
+    let topic_cache = Arc::new(Mutex::new(TopicCache::new(
+      format!("{TOPIC_NAME}_nk"),
+      TypeDesc::new(TYPE_NAME.to_string()),
+      &qos,
+    )));
+    let entity_id = EntityId::new([0, 0, 0x40 + n], EntityKind::READER_NO_KEY_USER_DEFINED);
+    let reader_guid = GUID::new_with_prefix_and_id(sh.dp.guid_prefix(), entity_id);
+    let (notification_sender, notification_receiver) = mio_channel::sync_channel::<()>(4);
+    let (status_sender, status_receiver) = sync_status_channel::<DataReaderStatus>(4).unwrap();
+    let (reader_command_sender, reader_command_receiver) =
+      mio_channel::sync_channel::<ReaderCommand>(0);
+    let data_reader_waker = Arc::new(Mutex::new(None));
+    let (poll_event_source, poll_event_sender) = mio_source::make_poll_channel().unwrap();
+    let (discovery_command_sender, discovery_command_receiver) =
+      mio_channel::sync_channel::<DiscoveryCommand>(64);
+    let (participant_status_sender, participant_status_receiver) =
+      sync_status_channel::<DomainParticipantStatusEvent>(64).unwrap();
+    let reader = Reader::new(
+      ReaderIngredients {
+        guid: reader_guid,
+        notification_sender,
+        status_sender,
+        topic_name: format!("{TOPIC_NAME}_nk"),
+        topic_cache_handle: topic_cache.clone(),
+        like_stateless: false,
+        qos_policy: qos.clone(),
+        data_reader_command_receiver: reader_command_receiver,
+        data_reader_waker: data_reader_waker.clone(),
+        poll_event_sender,
+        security_plugins: None,
+      },
+      Rc::new(UDPSender::new(0).unwrap()),
+      mio_extras::timer::Builder::default().build(),
+      participant_status_sender,
+    );
+    self.mr.add_reader(reader);
+    let subscriber = sh.dp.create_subscriber(&QosPolicies::qos_none()).unwrap();
+    let sdr = SimpleDataReader::<
+      NoKeyWrapper<VSample>,
+      DAWrapper<crate::CDRDeserializerAdapter<VSample>>,
+    >::new(
+      subscriber,
+      entity_id,
+      sh.topic_no_key.clone(),
+      qos,
+      notification_receiver,
+      topic_cache,
+      discovery_command_sender,
+      status_receiver,
+      reader_command_sender,
+      data_reader_waker,
+      poll_event_source,
+    )
+    .unwrap();
+    self.nk_keepalive.push(Box::new((
+      discovery_command_receiver,
+      participant_status_receiver,
+    )));
+    (
+      crate::dds::no_key::DataReader::<VSample>::from_keyed(DataReader::from_simple_data_reader(sdr)),
+      [0, 0, 0x40 + n, EntityKind::READER_NO_KEY_USER_DEFINED.into()],
+    )
+  }
+
+  /// `Reader::update_writer_proxy` on the reader with the given entity id
+  pub fn match_writer_to(&mut self, reader_eid: [u8; 4], writer: [u8; 16], reliable: bool, port: u16) {
+    let guid = guid_from_bytes(writer);
+    let loc = Locator::from(std::net::SocketAddr::from(([127, 0, 0, 1], port)));
+    let proxy = RtpsWriterProxy::new(guid, vec![loc], vec![], EntityId::UNKNOWN);
+    let offered = make_qos(&ReaderCfg {
+      reliable,
+      history_depth: None,
+      max_samples: None,
+    });
+    let eid = EntityId {
+      entity_key: [reader_eid[0], reader_eid[1], reader_eid[2]],
+      entity_kind: EntityKind::from(reader_eid[3]),
+    };
+    self
+      .mr
+      .reader_mut(eid)
+      .expect("reader present")
+      .update_writer_proxy(proxy, &offered);
   }
 
   fn reader_mut(&mut self, slot: usize) -> &mut Reader {
